@@ -110,9 +110,45 @@ func famLinalg(g *Gen) {
 		}
 		g.tag("large-matrices")
 	}
+	if g.chance(0.12) {
+		// high ranks and unequal ranks: batch ranks 4..6 against 1..6 (slice growth / capacity effects in the
+		// shape helpers depend on the rank), sizes 1..2 so the tensors stay small
+		r1 := 4 + g.intn(3)
+		r2 := r1
+		if g.chance(0.6) {
+			r2 = 1 + g.intn(r1)
+		}
+		bb1 := make([]int, r1)
+		for i := range bb1 {
+			bb1[i] = 1 + g.intn(2)
+		}
+		bb2 := make([]int, r2)
+		for i := range bb2 {
+			bb2[i] = bb1[r1-r2+i]
+			if g.chance(0.3) {
+				bb2[i] = 1
+			} else if g.chance(0.2) {
+				bb1[r1-r2+i] = 1
+			}
+		}
+		if g.chance(0.5) {
+			bb1, bb2 = bb2, bb1
+		}
+		m, n, k = 1+g.intn(3), 1+g.intn(3), 1+g.intn(3)
+		s1 = append(append([]int{}, bb1...), m, n)
+		s2 = append(append([]int{}, bb2...), n, k)
+		g.tag("high-rank-matmul")
+	}
 	a := g.leafDistinct(s1, false, -2, 2)
 	b := g.leafDistinct(s2, false, -2, 2)
 	ab, o := g.do(Cmd{Op: OpMatMul, T: a, U: T(b)})
+	if o.Kind == "tensor" && g.chance(0.5) {
+		// the operands are used again after the product (their shapes and elements must be what they were)
+		g.do(Cmd{Op: OpScale, T: a, A: Dec{2, 0}})
+		g.do(Cmd{Op: OpShape, T: a})
+		g.do(Cmd{Op: OpBin, K: 8, T: b, U: T(b)})
+		g.tag("operands-reused-after-matmul")
+	}
 	if len(s1) != len(s2) {
 		g.tag("matmul-rank-mismatch")
 	}
@@ -288,6 +324,55 @@ func famIndexing(g *Gen) {
 	}
 	if len(ds) >= 2 {
 		g.do(Cmd{Op: OpTranspose, T: a})
+	}
+	// chains of shape operations on RESULTS of shape operations (a result's dims slice may have been built by
+	// append and carry spare capacity), looking at the intermediate tensors again afterwards
+	if len(ds) <= 4 && g.chance(0.5) {
+		cur := a
+		var chain []int
+		for i := 0; i < 2+g.intn(4); i++ {
+			cds := g.shapeOf(cur)
+			var y int
+			var o Obs
+			switch g.intn(5) {
+			case 0, 1:
+				y, o = g.do(Cmd{Op: OpUnsqueeze, T: cur, Z: g.intn(len(cds) + 1)})
+			case 2:
+				if len(cds) > 0 {
+					y, o = g.do(Cmd{Op: OpFlatten, T: cur, Z: g.intn(len(cds))})
+				} else {
+					y, o = g.do(Cmd{Op: OpUnsqueeze, T: cur, Z: 0})
+				}
+			case 3:
+				sq := -1
+				for j, d := range cds {
+					if d == 1 && (sq < 0 || g.chance(0.5)) {
+						sq = j
+					}
+				}
+				if sq >= 0 {
+					y, o = g.do(Cmd{Op: OpSqueeze, T: cur, Z: sq})
+				} else {
+					y, o = g.do(Cmd{Op: OpUnsqueeze, T: cur, Z: len(cds)})
+				}
+			default:
+				if len(cds) > 0 {
+					y, o = g.do(Cmd{Op: OpAlong, K: 0, T: cur, Z: g.intn(len(cds))})
+				} else {
+					y, o = g.do(Cmd{Op: OpUnsqueeze, T: cur, Z: 0})
+				}
+			}
+			if o.Kind != "tensor" {
+				break
+			}
+			chain = append(chain, y)
+			cur = y
+		}
+		for _, y := range chain {
+			g.do(Cmd{Op: OpShape, T: y})
+			g.do(Cmd{Op: OpSlice, T: y, Ranges: nil})
+		}
+		g.tag("shape-op-chain")
 	}
 	g.do(Cmd{Op: OpBroadcast, T: a, Dims: g.bcastTarget(ds)})
 	// concat
